@@ -207,7 +207,7 @@ func isoExec(st *isoDoc, op Op) (string, string) {
 			}
 			st.setSaved(b)
 		case "Save":
-			fn := fmt.Sprintf("iso-%d-%s-%d.docx", os.Getpid(), st.name, goid())
+			fn := fmt.Sprintf("iso-%d-%s-%d.docx", os.Getpid(), st.name, isoGoid())
 			defer os.Remove(fn)
 			if err := d.Save(fn); err != nil {
 				return "err"
@@ -697,7 +697,7 @@ func runIso(c Case, emit Emitter) {
 
 // ---------------------------------------------------------------- goroutines under a gate
 
-func goid() int64 {
+func isoGoid() int64 {
 	var buf [64]byte
 	n := runtime.Stack(buf[:], false)
 	f := strings.Fields(string(buf[:n]))
@@ -733,7 +733,7 @@ func isoGateHook(point string) {
 	if !(strings.HasPrefix(point, "notes.") || strings.HasPrefix(point, "numbering.")) {
 		return
 	}
-	wi, ok := isoWorkers.Load(goid())
+	wi, ok := isoWorkers.Load(isoGoid())
 	if !ok {
 		return
 	}
@@ -753,7 +753,7 @@ func isoRunGo(c Case, names []string, docs map[string]*isoDoc, tab *isoIntern, e
 		ws[d] = w
 		ready := make(chan int64)
 		go func() {
-			id := goid()
+			id := isoGoid()
 			isoWorkers.Store(id, w)
 			ready <- id
 			for op := range w.cmd {
